@@ -1344,6 +1344,27 @@ class Mutator:
         s.node.kind = None
         return 'prim_attr_int', 'Constant.value'
 
+    def m_foreign_conflate(self, a, ss):
+        """a node of another FST tree inside which a Constant was changed to an == value of another type (1 -> True, 2 -> 2.0)"""
+        t = self._expr_target(ss)
+        if not t:
+            return None
+        for _ in range(6):
+            n = self._foreign_expr()
+            if n is None:
+                continue
+            cs = [x for x in ast.walk(n) if isinstance(x, ast.Constant) and type(x.value) in (int, bool)]
+            if not cs:
+                continue
+            x = self.r.choice(cs)
+            v = x.value
+            x.value = int(v) if type(v) is bool else bool(v) if v in (0, 1) and self.r.random() < 0.5 else float(v)
+            if x.value != v:
+                continue
+            t.set(n)
+            return 'foreign_conflate', 'Constant.value'
+        return None
+
     def m_foreign_prim(self, a, ss):
         """a node of another FST tree with a primitive changed inside it (the link check cannot see that)"""
         t = self._expr_target(ss)
